@@ -7,6 +7,7 @@
 
 #include <tlx/thread_pool.hpp>
 
+#include <atomic>
 #include <iostream>
 #include <memory>
 #include <stdexcept>
@@ -32,13 +33,16 @@ void generate(Rng& r, Workload& w, int tier) {
     int njobs = int(r.range(0, maxjobs));
     int rounds = scen ? 1 : int(r.range(1, 3));
     const bool throwing_run = r.chance(1, 4);
+    const bool nested_run = r.chance(1, 5);
     for (int rd = 0; rd < rounds; ++rd) {
         int k = rounds == 1 ? njobs : int(r.range(0, njobs / rounds + 1));
         for (int i = 0; i < k; ++i) {
             // in one run out of four some jobs end by throwing a std::exception (which the pool catches)
             const int64_t thr = (throwing_run && r.chance(1, 3)) ? 1 : 0;
-            if (i > 0 && r.chance(1, 2)) w.ops.push_back({OP_CHILD, int64_t(r.below(8)), r.chance(1, 4) ? 1 : 0, thr});
-            else w.ops.push_back({OP_ROOT, outside ? int64_t(r.below(uint64_t(outside + 1))) : 0, 0, thr});
+            // in one run out of five some jobs own a pool of their own, fill it and wait for it (nested pools)
+            const int64_t nest = (nested_run && r.chance(1, 3)) ? 1 : 0;
+            if (i > 0 && r.chance(1, 2)) w.ops.push_back({OP_CHILD, int64_t(r.below(8)), r.chance(1, 4) ? 1 : 0, thr, nest});
+            else w.ops.push_back({OP_ROOT, outside ? int64_t(r.below(uint64_t(outside + 1))) : 0, 0, thr, nest});
         }
         if (rd + 1 < rounds) w.ops.push_back({OP_ROUND});
     }
@@ -62,6 +66,7 @@ struct Job {
     std::vector<int> children;
     std::vector<int> dtor_children;   // enqueued when the job's closure is destroyed (continuation token)
     bool throws = false;              // ends by throwing a std::exception (the pool catches and logs it)
+    bool nested = false;              // creates an inner pool, enqueues jobs into it and waits for them
 };
 
 struct Ctx {
@@ -72,6 +77,7 @@ struct Ctx {
     std::vector<int> plain_closure_gone;   // written when the job's closure is destroyed
 };
 
+std::atomic<int> g_nested_bad{0};
 void run_job(Ctx* cx, int j);
 void enqueue_job(Ctx* cx, int j);
 
@@ -106,6 +112,17 @@ void run_job(Ctx* cx, int j) {
     for (int c : jb.children) enqueue_job(cx, c);
     sim::point();
     cx->plain_result[size_t(j)] = 1000 + j;
+    if (jb.nested) {
+        // C10 for a second pool whose waiter is a worker thread of the first one
+        const size_t k = size_t(1 + j % 3);
+        std::vector<int> eff(k, 0);
+        tlx::ThreadPool inner(size_t(1 + j % 2));
+        for (size_t q = 0; q < k; ++q) inner.enqueue([&eff, q]() { eff[q] = int(q) + 1; });
+        inner.loop_until_empty();
+        bool good = inner.done() == k;
+        for (size_t q = 0; q < k; ++q) good = good && eff[q] == int(q) + 1;
+        if (!good) g_nested_bad.fetch_add(1, std::memory_order_relaxed);
+    }
     if (jb.terminates) {
         sim::event(EV_TERM_CALL, j);
         cx->pool->terminate();
@@ -123,6 +140,8 @@ void execute(const Workload& w, Result& res) {
     const int outside = int(sim::modn(sim::cfg_at(w, C_OUTSIDE), 3));
 
     Ctx cx;
+    int nested_jobs = 0;
+    g_nested_bad = 0;
     bool any_dtor_child = false;
     int round = 0, nrounds = 1;
     int term_out = 0;                 // outside thread that terminates (terminate scenario)
@@ -136,11 +155,13 @@ void execute(const Workload& w, Result& res) {
         if (code == OP_ROOT || (code == OP_CHILD && have == 0)) {
             Job j{int(cx.jobs.size()), round, -1, code == OP_ROOT ? int(sim::modn(a, outside + 1)) : 0, false, {}, {}};
             j.throws = op.size() > 3 && sim::modn(op[3], 2) == 1;
+            j.nested = op.size() > 4 && sim::modn(op[4], 2) == 1 && ++nested_jobs <= 3;
             cx.jobs.push_back(j);
         } else if (code == OP_CHILD) {
             int par = first + int(sim::modn(a, have));
             Job j{int(cx.jobs.size()), round, par, 0, false, {}, {}};
             j.throws = op.size() > 3 && sim::modn(op[3], 2) == 1;
+            j.nested = op.size() > 4 && sim::modn(op[4], 2) == 1 && ++nested_jobs <= 3;
             // continuation enqueued by the destructor of the parent's closure: only where every job is
             // guaranteed to complete before the pool goes away (no terminate, no abrupt destruction)
             const bool by_dtor = !scen_term && !abrupt && op.size() > 2 && sim::modn(op[2], 2) == 1;
@@ -303,6 +324,10 @@ void execute(const Workload& w, Result& res) {
     }
     if (nj == 0) res.probe("no_jobs");
     res.probe("jobs", uint64_t(nj));
+    if (g_nested_bad.load()) res.fail("quiescence", "a job that waited for a pool of its own (loop_until_empty on the inner pool) found inner jobs not run, their effects missing or done() short");
+    uint64_t nst = 0;
+    for (auto& jb : cx.jobs) nst += jb.nested ? 1 : 0;
+    if (nst) res.probe("jobs_waiting_for_an_inner_pool", nst);
     uint64_t thr = 0;
     for (auto& jb : cx.jobs) thr += jb.throws ? 1 : 0;
     if (thr) res.probe("jobs_ending_with_an_exception", thr);
